@@ -133,7 +133,7 @@ def finish(res, src, sid):
     dst = os.path.join(ROOT, "seeded", sid)
     os.makedirs(dst, exist_ok=True)
     for f in glob.glob(os.path.join(src, "*")):
-        if os.path.isfile(f) and os.path.basename(f) not in ("meta.json", "property.txt"):
+        if os.path.isfile(f) and os.path.basename(f) not in ("meta.json", "property.txt") and os.path.abspath(os.path.dirname(f)) != os.path.abspath(dst):
             shutil.copy(f, dst)
     with open(os.path.join(dst, "meta.json"), "w") as f:
         json.dump(res, f, indent=1)
